@@ -31,6 +31,8 @@ SINGLE = [
     ("xy", "chi2", "quad", ["y-abs-rho", "x-abs"]),
     ("xy", "chi2_pointwise", "lin", ["y-abs", "y-abs-rho"]),
     ("xy", "chi2_fast", "lin", ["y-cov"]),
+    ("xy", "chi2:nodet", "lin", ["y-abs"]),  # cost function OBJECT with add_determinant_cost=False (diagonal covariance: do_fit switches to its pointwise twin)
+    ("indexed", "chi2:nodet", "idx2", ["y-abs", "y-rel"]),
     ("xy", "chi2", "lin", ["y-abs", "y-abs-model"]),  # uncorrelated data source + correlated model-referenced source
     ("indexed", "chi2", "idx2", ["y-abs", "y-abs-model"]),
     ("xy", "chi2_no_errors", "lin", []),
@@ -49,7 +51,7 @@ MULTI = [["xy_ab"], ["xy_ab", "xy_ac"], ["xy_ab", "idx_ad"], ["xy_ab", "xy_ac", 
 
 
 # multi-fits with a shared uncertainty source: (member list, (kind, member indices))
-MULTI_SHARED = [(["xy_ab", "xy_ac"], ("y-abs-rho", [0, 1])), (["xy_ab", "idx_ad", "xy_ac"], ("y-cov", [0, 2])), (["xy_ab_x", "xy_ac"], ("x-abs", [0, 1]))]
+MULTI_SHARED = [(["xy_ab", "xy_ac"], ("y-abs-rho", [0, 1])), (["xy_ab", "idx_ad", "xy_ac"], ("y-cov", [0, 2])), (["xy_ab_x", "xy_ac"], ("x-abs", [0, 1])), (["xy_ab", "hist", "xy_ac"], ("y-abs-rho", [0, 2]))]
 
 
 def single_alphabet(w):
@@ -141,7 +143,12 @@ def check_multi(mw):
     if ndf != endf:
         out.append(("ndf", endf, int(ndf), "wrong-value"))
     if mw.shared:
-        egof = mw.ref_cost(with_det=False)  # joint chi2 with the shared matrix in all blocks + constraint cost
+        # joint chi2 with the shared matrix in all blocks + constraint cost; members outside the chi2 block add their own gof
+        egof = mw.ref_cost(with_det=False)
+        for w in mw.members:
+            if w.ftype not in ("xy", "indexed"):
+                g = gof_ref(w)
+                egof = None if (g is None or egof is None) else egof - w.ref_cost(with_det=False) + g
     else:
         gofs = [gof_ref(w) for w in mw.members]
         egof = None if any(g is None for g in gofs) else sum(gofs) + mw.ref_constraint_cost()
@@ -210,7 +217,7 @@ def jobs(tier, seed):
 
 
 def bound(tier, seed):
-    return "all operation sequences of length <= %d over fix/fix-again/release/constraints(n=1,2,3)/set/do_fit on 17 single-fit configurations (4 fit types, 12 cost identifiers) and 8 multi-fits of 1-3 members plus 3 multi-fits with a shared y / matrix / x source (operations on multi-fit and members); valuation(s) %s" % (
+    return "all operation sequences of length <= %d over fix/fix-again/release/constraints(n=1,2,3)/set/do_fit on 19 single-fit configurations (4 fit types, 12 cost identifiers) and 8 multi-fits of 1-3 members plus 4 multi-fits with a shared y / matrix / x source (one with a non-chi2 member) (operations on multi-fit and members); valuation(s) %s" % (
         3 if tier == "quick" else 4,
         (seed % 3) if tier == "quick" else "0,1,2",
     )
